@@ -130,10 +130,17 @@ func decodeOp(op []int64) (layers []layerSpec, acts []act, proto int64, ok bool)
 	phase := 0
 	pendingInfo := false
 	hijackSeen := false
+	hasBuffer := false
+	for _, l := range layers {
+		if l.kind == 7 {
+			hasBuffer = true
+		}
+	}
+	onlyEmptyWrites := true
 	for i, a := range acts {
 		switch a.tag {
 		case 0, 6:
-			if phase > 0 {
+			if phase > 0 && !(phase == 2 && onlyEmptyWrites && !hasBuffer) { // (headers set after an empty write committed the response: ignored by net/http)
 				return nil, nil, 0, false
 			}
 		case 5:
@@ -143,10 +150,15 @@ func decodeOp(op []int64) (layers []layerSpec, acts []act, proto int64, ok bool)
 			pendingInfo = true
 		case 1:
 			pendingInfo = false
-			if phase > 0 {
+			// a status after the response was committed by an EMPTY write: net/http ignores it (the response is a 200); the
+			// buffer is known to take the last status instead, so such handlers are not run through a buffer
+			lateAfterEmptyWrite := phase == 2 && onlyEmptyWrites && !hasBuffer
+			if phase > 0 && !lateAfterEmptyWrite {
 				return nil, nil, 0, false
 			}
-			phase = 1
+			if phase < 1 {
+				phase = 1
+			}
 			switch a.a {
 			case 200, 201, 202, 203, 205, 400, 404, 409, 500, 502:
 			default:
@@ -157,6 +169,9 @@ func decodeOp(op []int64) (layers []layerSpec, acts []act, proto int64, ok bool)
 				return nil, nil, 0, false
 			}
 			phase = 2
+			if a.tag == 3 || len(a.data) > 0 {
+				onlyEmptyWrites = false
+			}
 		case 4:
 			// the hijack attempt comes first, or after headers and a status (a tunnel's 200, an upgrade's 101 written through
 			// the writer before the connection is taken over), never after body bytes or a flush
@@ -196,6 +211,7 @@ func scripted(acts []act, p *probe) http.Handler {
 		if _, ok := w.(http.Flusher); ok {
 			atomic.StoreInt32(&p.flusher, 1)
 		}
+		w.Header()[rawName] = []string{"1"} // a header name in the handler's own spelling
 		for _, a := range acts {
 			switch a.tag {
 			case 0:
@@ -384,9 +400,32 @@ func (failingSink) Write(p []byte) (int, error) { return 0, fmt.Errorf("no space
 type connRec struct {
 	http.ResponseWriter
 	flushes *int32
+	raw     *int32 // set to 1 + (number of values) when the head is committed with the handler's oddly spelled header name intact
+}
+
+const rawName = "x-raw-Spelling" // a header NAME the handler spells its own way by writing to the map directly
+
+// noteHead looks at the header map at the moment the response head is committed
+func (c connRec) noteHead() {
+	if atomic.LoadInt32(c.raw) == 0 {
+		atomic.StoreInt32(c.raw, int32(1+len(c.ResponseWriter.Header()[rawName])))
+	}
+}
+
+func (c connRec) WriteHeader(code int) {
+	if code >= 200 {
+		c.noteHead()
+	}
+	c.ResponseWriter.WriteHeader(code)
+}
+
+func (c connRec) Write(p []byte) (int, error) {
+	c.noteHead()
+	return c.ResponseWriter.Write(p)
 }
 
 func (c connRec) Flush() {
+	c.noteHead()
 	atomic.AddInt32(c.flushes, 1)
 	c.ResponseWriter.(http.Flusher).Flush()
 }
@@ -397,9 +436,11 @@ func (c connRecH) Hijack() (net.Conn, *bufio.ReadWriter, error) {
 	return c.ResponseWriter.(http.Hijacker).Hijack()
 }
 
-func recording(h http.Handler, flushes *int32) http.Handler {
+func recording(h http.Handler, flushes *int32, raw *int32) http.Handler {
 	return http.HandlerFunc(func(w http.ResponseWriter, r *http.Request) {
-		c := connRec{w, flushes}
+		c := connRec{w, flushes, raw}
+		// a handler that returns without committing anything leaves that to net/http: the header map is looked at then
+		defer c.noteHead()
 		if _, ok := w.(http.Hijacker); ok {
 			h.ServeHTTP(connRecH{c}, r)
 			return
@@ -517,6 +558,23 @@ func (c *stackComp) Gen(rng *rand.Rand, idx int, tier string, targeted bool) hli
 			}
 			op = append(op, 4) // hijack attempt; what follows is the fallback when hijacking is impossible
 		}
+		noBuffer := true
+		for i := 0; i < nl; i++ {
+			if op[1+3*i] == 7 {
+				noBuffer = false
+			}
+		}
+		if !hij && noBuffer && rng.Intn(8) == 0 {
+			// the response is committed by an empty write; a failure path sets headers and a status afterwards (ignored)
+			op = append(op, 2, 0, 0, int64(rng.Intn(10)), int64(rng.Intn(100)), 1, hlib.Pick(rng, 500, 502, 404))
+			n := rng.Intn(8)
+			op = append(op, 2, int64(n))
+			for j := 0; j < n; j++ {
+				op = append(op, int64(97+rng.Intn(26)))
+			}
+			h.Ops = append(h.Ops, op)
+			continue
+		}
 		if !hij || rng.Intn(2) == 0 {
 			for k := 0; k < rng.Intn(4) && !preStatus; k++ {
 				op = append(op, 0, int64(rng.Intn(10)), int64(rng.Intn(100)))
@@ -572,7 +630,8 @@ func (c *stackComp) Run(h *hlib.History) ([]hlib.Mon, bool) {
 		}
 		var flushes int32
 		badCookies := (len(acts)+len(layers))%2 == 0
-		r := exchange(recording(top, &flushes), proto, badCookies)
+		var rawSeen, rawSeen0 int32
+		r := exchange(recording(top, &flushes, &rawSeen), proto, badCookies)
 		for try := 0; try < 5 && resourceTrouble(r.err); try++ {
 			// the loopback ran out of ports (thousands of one-shot servers and connections): not the stack's doing; wait, rebuild, redo
 			hlib.Count("exchanges_redone_after_port_exhaustion", 1)
@@ -582,7 +641,8 @@ func (c *stackComp) Run(h *hlib.History) ([]hlib.Mon, bool) {
 				return nil, false
 			}
 			atomic.StoreInt32(&flushes, 0)
-			r = exchange(recording(top, &flushes), proto, badCookies)
+			atomic.StoreInt32(&rawSeen, 0)
+			r = exchange(recording(top, &flushes, &rawSeen), proto, badCookies)
 		}
 		if atomic.LoadInt32(&p.hijacked) == 1 {
 			// the handler took the connection over: what the client makes of the bytes on it is the handler's business
@@ -626,7 +686,7 @@ func (c *stackComp) Run(h *hlib.History) ([]hlib.Mon, bool) {
 		// passive: compare with the bare handler
 		p0 := &probe{}
 		var flushes0 int32
-		r0 := exchange(recording(scripted(acts, p0), &flushes0), proto, badCookies)
+		r0 := exchange(recording(scripted(acts, p0), &flushes0, &rawSeen0), proto, badCookies)
 		if atomic.LoadInt32(&p0.hijacked) == 1 {
 			r0 = result{hijacked: 1, bodyHash: hashBytes(nil)}
 			atomic.StoreInt32(&flushes0, 0)
@@ -646,6 +706,9 @@ func (c *stackComp) Run(h *hlib.History) ([]hlib.Mon, bool) {
 		}
 		if f, f0 := atomic.LoadInt32(&flushes), atomic.LoadInt32(&flushes0); !hasBuffer && f != f0 {
 			add("%d of the handler's Flush calls reached the connection's writer, %d reach it from the bare handler: streaming flush is not kept available", f, f0)
+		}
+		if a, b := atomic.LoadInt32(&rawSeen), atomic.LoadInt32(&rawSeen0); r.hijacked == 0 && a != b {
+			add("the handler's header %q reached the connection's writer with %d value(s) under that spelling; from the bare handler with %d: a header name was respelled or lost", rawName, a-1, b-1)
 		}
 		if r.hijacked == 0 && r.cookie != nSticky+r0.cookie {
 			add("%d Set-Cookie lines reached the client; the handler sent %d of its own and %d sticky balancers are in the stack", r.cookie, r0.cookie, nSticky)
